@@ -55,6 +55,22 @@ class ExecModels(Models):
             return dur(mk_int(z3.If(x >= y, x - y, z3.IntVal(0)), "nat"))
         ins(r"Instant::duration_since|Instant::saturating_duration_since", duration_since)
 
+        def checked_duration_since(c, m, a):
+            x, y = deref(a[0]).fields[0].z(), deref(a[1]).fields[0].z()
+            if c.decide(x >= y):
+                return some(dur(mk_int(x - y, "nat")))
+            return none()
+        ins(r"Instant::checked_duration_since", checked_duration_since)
+
+        def opt_and_then_fork(c, m, a):
+            o = a[0]
+            if isinstance(o, SymOpt):
+                if c.decide(o.present.v):
+                    return c.call_callable(a[1], [o.fields[0]])
+                return none()
+            return c.call_callable(a[1], [o.fields[0]]) if o.variant == "Some" else none()
+        ins(r"Option::<Instant>::and_then::<.*>|Option::<Duration>::and_then::<.*>", opt_and_then_fork)
+
         # ---- lazy static default timeout ---------------------------------------------------------
         ins(r"<DEFAULT_TOTAL_TIMEOUT as Deref>::deref", lambda c, m, a: new_ref(dur(DEFAULT_TOTAL_NS)))
 
